@@ -134,6 +134,29 @@ def to_dist(rs):
         d["inadequate_schedule"] += not (m in ps and all(a < b for a, b in zip(ps, ps[1:])))
     return d
 
+def np_nontrivial(r):
+    o = r["obs"].split()
+    return bool(o) and o[0] != "bad-request"
+
+def np_dist(rs):
+    d = {"service": {}, "tls": 0, "tcp_uri_validation": 0, "version": {}, "uri_form": {"absolute": 0, "origin": 0, "authority": 0, "asterisk": 0},
+         "connect": 0, "host_ipv6": 0, "host_not_a_server_name": 0, "outcome": {}, "fine_class_agrees_with_model": 0}
+    for r in rs:
+        t = r["input"].split()
+        o = r["obs"].split()
+        d["service"][t[1]] = d["service"].get(t[1], 0) + 1
+        d["tls"] += t[2] == "1"
+        d["tcp_uri_validation"] += t[3] == "1"
+        d["connect"] += t[4] == "CONNECT"
+        d["version"][t[10]] = d["version"].get(t[10], 0) + 1
+        form = "absolute" if t[5] != "-" else "authority" if t[6] != "-" else "asterisk" if t[8] == "*" else "origin"
+        d["uri_form"][form] += 1
+        d["host_ipv6"] += t[6].startswith("[")
+        d["host_not_a_server_name"] += len(o) >= 3 and o[2] == "0"
+        d["outcome"][o[0]] = d["outcome"].get(o[0], 0) + 1
+        d["fine_class_agrees_with_model"] += "fine=1" in r.get("model", "")
+    return d
+
 def tls_nontrivial(r):
     t = r["input"].split()
     return t[1] == "1" and t[3].lower() in ("https", "wss")
@@ -404,6 +427,34 @@ PROPS = {
                     "the server name, and ALPN can be agreed; SNI carries DNS names only, without a trailing dot",
                     "name coverage is modelled for the fixed certificates of harness/certs only (one-label wildcard, case-insensitive)"],
     },
+    "C17": {
+        "props_module": "HdModel.Props.C17",
+        "class_prefix": ["C17/", "C12/panic"],
+        "theorems": ["Hd.NoPanic.C17_no_panic", "Hd.NoPanic.C17_version", "Hd.NoPanic.C17_version_result", "Hd.NoPanic.C17_connect_stage",
+                     "Hd.NoPanic.C17_checks", "Hd.NoPanic.C17_pool_rejects_relative", "Hd.NoPanic.protocolFrom_panics",
+                     "Hd.NoPanic.authorityForm_panics", "Hd.NoPanic.tlsStreamNew_panics"],
+        "streams": [
+            {"name": "np", "quick": 3000, "thorough": 200000, "head": 11, "unit": 1, "batch": 20000,
+             "exhaustive": "np-exhaustive", "exhaustive_always": True, "nontrivial": np_nontrivial, "distribution": np_dist},
+            {"name": "tls", "quick": 500, "thorough": 20000, "head": 8, "unit": 1, "batch": 20000,
+             "exhaustive": "tls-exhaustive", "exhaustive_always": True, "nontrivial": tls_nontrivial, "distribution": tls_dist},
+        ],
+        "rule": "requests from a grammar - 11 methods incl. CONNECT, TRACE and an extension method; absolute URIs (9 schemes incl. odd "
+                "case and unknown ones x 15 host forms: DNS, IPv4, bracketed IPv6, punycode, underscore, URI-legal names rustls rejects; "
+                "ports absent/80/443/0/random; 8 paths; 5 queries), origin-form, authority-form and asterisk-form URIs; all five "
+                "http::Version constants; 0-3 headers incl. empty Host, Expect, Transfer-Encoding, mismatching Content-Length; bodies on "
+                "POST/PUT - through Client (pool on/off), ConnectionPoolService (pool on/off) and ConnectorService, with and without TLS "
+                "(real rustls against a real hyperdriver Server behind a TLS acceptor), over a transport that optionally applies the TCP "
+                "transport's URI validation before connecting through an in-memory duplex. Panics observed in the caller (catch_unwind) "
+                "and in every task spawned meanwhile (process-wide panic hook counter). Every run includes the grid service x tls x "
+                "tcp-validation x {GET, CONNECT, OPTIONS, POST} x version x 13 URI forms (5200 cases). Comparison with the model is by "
+                "outcome kind (response / error / panic); agreement of the exact error class is reported in the distribution. "
+                "The tls stream (C12) contributes its panic class. non-trivial = the http crate accepted the request",
+        "assumes": ["http crate: request/URI construction (requests it rejects are outside 'well-typed request')",
+                    "hyper and rustls return errors rather than panic for requests that reach them (observed, not modelled)",
+                    "the real TcpTransport's connect (DNS, sockets) is replaced by an in-memory duplex after its URI validation",
+                    "panics are observed for 30 virtual ms after the request completes"],
+    },
     "C13": {
         "props_module": "HdModel.Props.C13",
         "class_prefix": ["C13/"],
@@ -420,8 +471,7 @@ PROPS = {
                 "or a stub HTTP/2 connection; plus request version x ALPN through HttpConnectionBuilder. non-trivial = absolute URI",
         "assumes": ["http crate: Uri/HeaderMap parsing and printing; header order between different names is not significant",
                     "hyper's HTTP/1 encoder writes the request target and headers it is given (observed on the wire); "
-                    "hyper's HTTP/2 client is replaced by a stub so that hyperdriver's own header stripping is what is observed",
-                    "harness is a debug build: the debug_assert! sites of absolute_form are live (model parameter dbg = true)"],
+                    "hyper's HTTP/2 client is replaced by a stub so that hyperdriver's own header stripping is what is observed"],
     },
     "C19": {
         "props_module": "HdModel.Props.C19",
